@@ -386,6 +386,14 @@ func monC10() mc.Monitor {
 					out = append(out, v("C10", "completed-with-work", "completed", "application %s is %s with %d live real allocation(s) and %d outstanding ask(s) (after %s)", id, a.State, realAllocs, outstanding, st.Op))
 				}
 			}
+			// "one with neither becomes Completing and, undisturbed, Completed": the only thing that completes a Completing
+			// application is its state timer, so it must be armed (or have expired with its callback still to run)
+			if a.State == "Completing" && a.Where == "active" {
+				counts["C10.completing-timer-armed"]++
+				if !a.TimerState && post.Mem["late-timer:"+id] == "" {
+					out = append(out, v("C10", "completing-without-timer", "timer", "application %s is Completing but no state timer is armed: it never becomes Completed (after %s)", id, st.Op))
+				}
+			}
 			// terminated applications leave the queue and the active list
 			if a.State == "Completed" || a.State == "Failed" {
 				counts["C10.terminated-left"]++
